@@ -33,6 +33,12 @@ func usageName(u []gx509.ExtKeyUsage) string {
 			s += "serverAuth,"
 		case gx509.ExtKeyUsageClientAuth:
 			s += "clientAuth,"
+		case gx509.ExtKeyUsageCodeSigning:
+			s += "codeSigning,"
+		case gx509.ExtKeyUsageEmailProtection:
+			s += "emailProtection,"
+		case gx509.ExtKeyUsageMicrosoftServerGatedCrypto:
+			s += "msSGC,"
 		default:
 			s += fmt.Sprint(int(e)) + ","
 		}
@@ -51,6 +57,10 @@ func check(c *harness.Ctx, u *universe, leaf *cert, roots, inters []*cert, q que
 	var chains [][]*gx509.Certificate
 	var err error
 	if c.Guard("verify-panic:"+kind, "Verify "+label, nil, func() { chains, err = leaf.x.Verify(opts) }) {
+		return
+	}
+	if sgcAmbiguous(leaf.d, q.usages) {
+		c.Add("not-judged-server-gated-crypto", 1)
 		return
 	}
 	got := err == nil && len(chains) > 0
@@ -267,7 +277,8 @@ func connectable(l *cert, rs, is []*cert) bool {
 
 var dnsAlphabet = []string{"", "www.example.test", "WWW.EXAMPLE.TEST", "www.example.test.", "foo.example.test", "a.b.example.test", "example.test", "other.test", "10.0.0.1", "[10.0.0.1]", "10.0.0.2", "[2001:db8::1]", "alt.example.test", "wwwXexample.test"}
 
-var usageAlphabet = [][]gx509.ExtKeyUsage{nil, {gx509.ExtKeyUsageClientAuth}, {gx509.ExtKeyUsageAny}, {gx509.ExtKeyUsageServerAuth, gx509.ExtKeyUsageClientAuth}, {gx509.ExtKeyUsageCodeSigning}}
+var usageAlphabet = [][]gx509.ExtKeyUsage{nil, {gx509.ExtKeyUsageClientAuth}, {gx509.ExtKeyUsageAny}, {gx509.ExtKeyUsageServerAuth, gx509.ExtKeyUsageClientAuth}, {gx509.ExtKeyUsageCodeSigning},
+	{gx509.ExtKeyUsageEmailProtection}, {gx509.ExtKeyUsageMicrosoftServerGatedCrypto}, {gx509.ExtKeyUsageEmailProtection, gx509.ExtKeyUsageCodeSigning}}
 
 func leafQueryUnit(pi int) harness.Unit {
 	return harness.Unit{Name: fmt.Sprintf("leaf-x-query/pool%d", pi), Run: func(c *harness.Ctx) {
